@@ -433,6 +433,36 @@ def _realify(M):
     return R
 
 
+# CG settings of the *other* losses of a history (index into this list is stored in the case)
+OTHER_KW = [{"tol": 1e-1, "maxiter": 2}, {"maxiter": 1}, {"tol": 0.5}, None, {"tol": 1e-12, "maxiter": 1000}, {"maxiter": 3, "tol": 1e-2}]
+DEFAULT_KW = {"maxiter": 100, "tol": 1e-5}
+
+
+def _own_kw(case):
+    if "kw" in case:
+        return case["kw"]
+    return {"maxiter": 500, "tol": 1e-11} if case.get("tight") else None
+
+
+def _expected_kw(case):
+    kw = dict(DEFAULT_KW)
+    kw.update(_own_kw(case) or {})
+    return kw
+
+
+def _other_losses(idx_list):
+    """construct (and drop) other SquaredL2Loss objects with their own prox_kwargs: must not influence any other loss"""
+    import scico.numpy as snp
+    from scico import linop, loss
+
+    out = []
+    for i in idx_list:
+        m_ = 2 + (i % 3)
+        A_ = linop.MatrixOperator(snp.array(np.eye(m_) + 0.5 * np.eye(m_, k=1)), input_cols=0)
+        out.append(loss.SquaredL2Loss(y=snp.array(np.arange(1.0, m_ + 1)), A=A_, prox_kwargs=OTHER_KW[i]))
+    return out
+
+
 def gen_sql2_case(ctx):
     rng = ctx.rng
     cplx = bool(rng.integers(2))
@@ -460,6 +490,12 @@ def gen_sql2_case(ctx):
     case["scale"] = f2b(G.pos_dyadic(rng))
     case["lam"] = f2b(G.pos_dyadic(rng))
     case["tight"] = bool(rng.integers(2))
+    # own prox_kwargs: None | full (tight) | partial (only maxiter given: tol must stay the default 1e-5)
+    case["kw"] = {"maxiter": 500, "tol": 1e-11} if case["tight"] else (None if rng.random() < 0.6 else {"maxiter": 300})
+    # history: other SquaredL2Loss objects with their own (mostly loose) CG settings, built before / after the probed one;
+    # the probed loss must keep ITS settings (its arguments merged into the defaults maxiter=100, tol=1e-5)
+    case["history"] = {"before": [int(i) for i in rng.integers(0, len(OTHER_KW), size=int(rng.integers(0, 4)))],
+                       "after": [int(i) for i in rng.integers(0, len(OTHER_KW), size=int(rng.integers(0, 3)))]}
     # after the first use: rescale (c*L, L/c, set_scale) and ask again (stale caches)
     case["rescale"] = [["mul", "div", "setscale"][int(rng.integers(3))], f2b(G.pos_dyadic(rng))]
     return case
@@ -482,6 +518,9 @@ def gen_sql2_small_case(ctx):
     case["scale"] = f2b(G.pos_dyadic(rng))
     case["lam"] = f2b(G.pos_dyadic(rng, hi=8.0))
     case["tight"] = False
+    case["kw"] = None
+    case["history"] = {"before": [int(i) for i in rng.integers(0, len(OTHER_KW), size=int(rng.integers(1, 4)))],
+                       "after": [int(i) for i in rng.integers(0, len(OTHER_KW), size=int(rng.integers(0, 3)))]}
     case["small"] = True
     case["rescale"] = [["mul", "div", "setscale"][int(rng.integers(3))], f2b(G.pos_dyadic(rng))]
     return case
@@ -507,8 +546,10 @@ def build_sql2(scico, case):
         A = linop.SingleAxisFiniteDifference((n,), input_dtype=dt, axis=0, circular=True)
     y = snp.array(G.unil(b2fs(case["y"]), cplx))
     W = None if case["w"] is None else linop.Diagonal(snp.array(np.asarray(b2fs(case["w"]))), input_dtype=np.float64)
-    kw = {"maxiter": 500, "tol": 1e-11} if case["tight"] else None
-    L = loss.SquaredL2Loss(y=y, A=A, scale=b2f(case["scale"]), W=W, prox_kwargs=kw)
+    hist = case.get("history") or {"before": [], "after": []}
+    _other_losses(hist["before"])
+    L = loss.SquaredL2Loss(y=y, A=A, scale=b2f(case["scale"]), W=W, prox_kwargs=_own_kw(case))
+    _other_losses(hist["after"])
     return L, (linop.Identity((n,), input_dtype=dt) if A is None else A)
 
 
@@ -520,6 +561,10 @@ def _sql2_oracle(scico):
         cplx = case["cplx"]
         dt = np.complex128 if cplx else np.float64
         L, A = build_sql2(scico, case)
+        if dict(L.prox_kwargs) != _expected_kw(case):
+            return {"what": "SquaredL2Loss.prox_kwargs is not this loss's own arguments merged into the defaults (maxiter=100, tol=1e-5)",
+                    "prox_kwargs": dict(L.prox_kwargs), "expected": _expected_kw(case), "own argument": _own_kw(case),
+                    "other losses built before/after": [[OTHER_KW[i] for i in (case.get("history") or {}).get(k_, [])] for k_ in ("before", "after")]}
         n = case["n"]
         Ad = _dense(A, n, dt)
         w = np.ones(case["m"]) if case["w"] is None else np.asarray(b2fs(case["w"]))
@@ -530,7 +575,7 @@ def _sql2_oracle(scico):
         rhs = v + c * Ad.conj().T @ (w * y)
         xs = np.linalg.solve(lhs, rhs)
         x = np.asarray(L.prox(snp.array(v), b2f(case["lam"])))
-        tol = 1e-11 if case["tight"] else 1e-5
+        tol = _expected_kw(case)["tol"]
         exact = case["kind"] in ("ident", "sid", "diag")
         res = np.linalg.norm(lhs @ x - rhs)
         nr = np.linalg.norm(rhs)
@@ -580,6 +625,12 @@ def run_sql2_case(ctx, model, scico, case, oracle):
     lam = b2f(case["lam"])
     if not L.has_prox:
         ctx.disagree("sql2.flags", case, False, True, oracle=oracle)
+    # the CG settings of this loss are its own (history of other losses in case["history"])
+    hist = case.get("history") or {"before": [], "after": []}
+    ctx.count(f"sql2:history {len(hist['before'])} before / {len(hist['after'])} after")
+    if dict(L.prox_kwargs) != _expected_kw(case):
+        ctx.disagree("sql2.prox_kwargs", case, dict(L.prox_kwargs), _expected_kw(case), oracle=oracle,
+                     note="prox_kwargs of this loss differ from its own arguments merged into the defaults")
     x = _impl(lambda: G.il(np.asarray(L.prox(v, lam)), cplx))
     if x[0] != "ok":
         ctx.disagree("sql2.prox", case, list(x), "ok", oracle=oracle, note="prox raised although has_prox is True")
@@ -600,7 +651,7 @@ def run_sql2_case(ctx, model, scico, case, oracle):
     res = np.asarray(b2fs(res))
     c = 2 * b2f(case["scale"]) * lam
     rhs_norm = float(np.linalg.norm(np.asarray(b2fs(case["v"])) + c * (AR.T @ (wr * np.asarray(b2fs(case["y"]))))))
-    tol = 1e-11 if case["tight"] else 1e-5
+    tol = _expected_kw(case)["tol"]
     exact = kind in ("ident", "sid", "diag")
     # CG stops when norm(r) <= tol*norm(b): the bound is *relative* to the right-hand side (plus rounding of the
     # residual recurrence); the closed form is exact up to rounding
@@ -734,6 +785,16 @@ def run_loss_flags(ctx, model, scico):
             ctx.disagree("loss.flags.shape", case, list(np.asarray(pr[1]).shape), [n])
 
 
+def run_unit_factor(ctx, scico):
+    """`1 * L`, `L * 1.0`, `L / 1`, ... are independent copies: rescaling the product in place leaves L alone (5 loss classes x
+    6 ways of writing the unit factor; a history on the same objects)"""
+    for desc, fail in G.unit_factor_failures(scico, ctx.rng, reps=ctx.n(1, 4)):
+        ctx.case({"unit-factor": desc["class"], "form": desc["form"]}, ("unit-factor", desc["class"], desc["form"]))
+        ctx.count("unit-factor:" + desc["form"])
+        if fail is not None:
+            ctx.disagree("loss.unit_factor", desc, fail.get("what"), "independent copy", oracle=lambda _c, fail=fail: fail)
+
+
 def run_sql2_ctor(ctx, scico):
     """the hypothesis `W >= 0` of the SquaredL2Loss theorems is what the constructors enforce: a negative weight is
     rejected with ValueError, a weighting that is not a linop.Diagonal with TypeError (all three weighted losses)"""
@@ -852,6 +913,7 @@ def correspond(ctx, model):
         case["v"] = G.random_arg_json(ctx.rng, shape, case["cplx"])
         case["lam"] = f2b(G.pos_dyadic(ctx.rng))
         run_tree_case(ctx, model, scico, case, oracle, "rescale-chain")
+    run_unit_factor(ctx, scico)
     run_sql2_ctor(ctx, scico)
     run_loss_flags(ctx, model, scico)
     run_moreau(ctx, scico)
